@@ -228,8 +228,12 @@ pub fn generate(rng: &mut Rng, tier: Tier) -> Plan {
     queries.push(nodes[n - 1].ts + 1 + rng.below(gl.min(5 * 365 * DAY) as u64) as i64);
     queries.push(nodes[n - 1].ts + 1);
     // dates that make an interpolation weight an exact small integer
-    queries.push(nodes[0].ts - g0); // w = -1
-    queries.push(nodes[n - 1].ts + gl); // w = 2
+    if g0 <= 5 * 365 * DAY {
+        queries.push(nodes[0].ts - g0); // w = -1
+    }
+    if gl <= 5 * 365 * DAY {
+        queries.push(nodes[n - 1].ts + gl); // w = 2
+    }
     queries.push(nodes[0].ts + 1);
     if g0 > 2 {
         queries.push(nodes[0].ts + 2);
@@ -894,7 +898,9 @@ fn probe(
                 (w, wi)
             })
             .clone();
-        if !want.v.x.is_finite() || want.v.x.abs() < 1e-250 || want.v.x.abs() > 1e250 {
+        // far outside any sensible regime (the squares that second derivatives need would
+        // overflow or underflow): no verdict
+        if !want.v.x.is_finite() || want.v.x.abs() < 1e-60 || want.v.x.abs() > 1e60 {
             obs.count("skipped.out_of_range_value");
             continue;
         }
